@@ -216,7 +216,7 @@ func TestVfC14Stale(t *testing.T) {
 	defer vfkit.Flush()
 	_, leaf := vfTLSMaterial()
 	rapid.Check(t, func(t *rapid.T) {
-		kind := rapid.SampledFrom([]string{"tcp", "tcp+pipeline", "tls", "tls+pipeline", "https", "quic"}).Draw(t, "kind")
+		kind := rapid.SampledFrom([]string{"tcp", "tcp+pipeline", "tls", "tls+pipeline", "https", "quic", "h3"}).Draw(t, "kind")
 		mode := rapid.SampledFrom([]string{"stale-fin", "stale-rst", "always-kill"}).Draw(t, "mode")
 		var killAll atomic.Bool
 		srv, err := vfkit.StartUpstream(kind, "s", "127.0.0.1", 0, vfkit.ServerTLS(leaf), func(q *vfkit.UpQuery) vfkit.UpAction {
